@@ -18,7 +18,7 @@ def file_hash(p):
 class C14(Prop):
     ID = "C14"
     MODULE = "AwProofs.Props.C14"
-    THEOREMS = []
+    THEOREMS = ["AwProofs.C14.migration_count_and_members", "AwProofs.C14.migration_ids_distinct", "AwProofs.C14.migration_preserves", "AwProofs.C14.migration_succeeds", "AwProofs.C14.old_unchanged", "AwProofs.C14.trigger_iff"]
     WORKERS = 8
     LEVEL_TEXT = "Lean 4 theorem over the peewee and sqlite table models: the migration loop creates every legacy bucket with its metadata and inserts exactly its events (as a multiset of instant, duration, data)"
     LEVEL_NOTE = "trusts: Lean kernel; backend models as validated by the C02/C04 correspondence; file-name trigger modelled as a predicate on the directory listing; legacy file immutability is observed (hash), not modelled"
